@@ -25,6 +25,17 @@ PROPS = {
         "modelled": COMMON_MODELLED,
         "assumptions": ["lengths < 2^62, ints are 64-bit"],
     },
+    "C02": {
+        "lean": ["Stackage.Props.C02"],
+        "streams": [{"name": "render", "quick": 4000, "thorough": 80000}, {"name": "strunit", "quick": 1000, "thorough": 20000}],
+        "rule": "random expression trees (depth <= 3 quick / 5 thorough, width <= 4) of AND/OR/NOT/LIST/BASIC stacks and Conditions with independent "
+                "per-node paren / fold / no-padding / lead-once / symbol (incl. multi-byte) / delimiter (incl. blank, multi-byte) / 0-2 encapsulation "
+                "pairs; leaves: ASCII, multi-byte, embedded / leading / trailing blanks and tabs, NBSP, newline, empty, ints, bools, floats, stringers; "
+                "String() compared byte for byte with the model and with the canonical grammar; a unit stream drives condenseWHSP / padValue / foldValue / "
+                "encapValue directly; non-trivial = the tree has at least 2 elements or a nested node",
+        "modelled": COMMON_MODELLED + ["strings as valid Unicode (List Char); the Go code works on bytes, and UTF-8 never contains bytes 9 or 32 inside a multi-byte sequence"],
+        "assumptions": ["no presentation / validity closures on nested nodes (C14 covers closures)", "C02_verbatim needs blank-free encapsulation strings (blanks inside them are condensed like any others)"],
+    },
     "C03": {
         "lean": ["Stackage.Props.C03"],
         "streams": [{"name": "capx", "quick": 3000, "thorough": 60000}],
@@ -164,6 +175,8 @@ def nontrivial(pid, payload):
     kinds = {o.split(" ")[0] for o in ops if o}
     if pid == "C15":
         return " [ ]" not in payload.split(" | ")[0]     # non-empty source
+    if pid == "C02":
+        return payload.count(" ") >= 6
     if pid in ("C13", "C14", "C06"):
         return len(ops) >= 2
     return len(ops) >= 3 and len(kinds) >= 2
